@@ -11,6 +11,21 @@ def store (recs : List Bytes) : Except Err (List Bytes) := buildStore leafH node
 def withStore (recs : List Bytes) (f : List Bytes → Except Err (List Bytes)) : String :=
   showHashes (store recs >>= f)
 
+/-- `count` level hashes of a log of identical records: `h`, `node h h`, … (a complete subtree's hash depends
+    only on its level) -/
+def uniformLevels (h : Bytes) : Nat → List Bytes
+  | 0 => []
+  | k + 1 => h :: uniformLevels (nodeH h h) k
+
+/-- the synthetic hash reader of an unbounded log of identical records `r` (C03 uniform-log class: the provers
+    at tree sizes up to 2^62+1): the stored hash at an index is the level hash of the index's level -/
+def uniformReader (r : Bytes) : HashReader Bytes := fun idxs =>
+  let lvl := uniformLevels (leafH r) 64
+  idxs.mapM fun i =>
+    match splitStoredHashIndex i with
+    | .ok (l, _) => lvl[l]?
+    | .error _ => none
+
 def handle : Handler
   | "sha256", [a] => do let a ← hx a; pure (xh (Sha256.sha256 a))
   | "recordhash", [a] => do let a ← hx a; pure (xh (leafH a))
@@ -35,6 +50,12 @@ def handle : Handler
   | "provetree", [t, n, r] => do
     let t ← int? t; let n ← int? n; let r ← records r
     pure (withStore r fun st => proveTree nodeH t n (storeReader st))
+  | "uproverecord", [t, n, r] => do
+    let t ← int? t; let n ← int? n; let r ← hx r
+    pure (showHashes (proveRecord nodeH t n (uniformReader r)))
+  | "uprovetree", [t, n, r] => do
+    let t ← int? t; let n ← int? n; let r ← hx r
+    pure (showHashes (proveTree nodeH t n (uniformReader r)))
   | "checkrecord", [p, t, th, n, h] => do
     let p ← hxList p; let t ← int? t; let th ← hx th; let n ← int? n; let h ← hx h
     pure (showUnit (checkRecord nodeH p t th n h))
